@@ -26,13 +26,28 @@ theorem forwarded_at_most_once (cap : Nat) (hc : 0 < cap) (h : List α) (hw : Wi
     (spawns cap h).count x = if x ∈ h then 1 else 0 := by
   rw [spawns_eq_firsts hc h hw]; exact count_firsts h x
 
-/-- sufficient condition in the property's words: at most `cap` distinct IDs outstanding -/
+/-- Sufficient condition: at most `cap` distinct IDs are reported in the whole history.  This is the strongest
+    reading of the property's "at most 1000 distinct IDs are outstanding" under which the code satisfies it: the
+    cache remembers *reported* IDs by recency and does not learn when a request is finished.  Read per moment -
+    never more than `cap` requests pending at once, but with turnover - the property is FALSE of the code, see
+    `turnover_counterexample` below (known finding C04:forwarded-twice:window-turnover).  `dedup_window` above is the
+    full-strength statement that is proved; this corollary and `forwarded_at_most_once` are the partial result
+    with respect to the property's wording. -/
 theorem window_of_few_distinct (cap : Nat) (h : List α) (hd : (firsts h).length ≤ cap) : WindowOK cap h := by
   exact windowOK_of_few_distinct cap h hd
 
 /-- the window clause is needed: `cap + 1` distinct IDs followed by a repeat of the first
     one forwards it twice (here cap = 2) -/
 theorem dedup_needs_window_counterexample : spawns 2 [1, 2, 3, 1] = [1, 2, 3, 1] := by decide
+
+/-- Known finding C04:forwarded-twice:window-turnover (kernel-checked here with cap = 3, replayed on the real polling
+    loop with 1000 on every run): three requests are pending and listed; request 3 is answered and a new request 4
+    arrives, so still three are pending; the next reply lists the new one first.  Recording 4 evicts 1 - which is
+    listed next, misses, is spawned again and evicts 2, and so on.  Never more than `cap` IDs were outstanding, yet
+    requests 1 and 2 are forwarded twice. -/
+theorem turnover_counterexample :
+    (∀ r ∈ [[1, 2, 3], [4, 1, 2]], (firsts r).length ≤ 3) ∧
+    spawns 3 ([[1, 2, 3], [4, 1, 2]] : List (List Nat)).flatten = [1, 2, 3, 4, 1, 2] := by decide
 
 /-- the cache size in the code is the documented 1000 -/
 theorem cache_limit : agent_requestCacheLimit = 1000 := by decide
